@@ -469,6 +469,40 @@ def r11(ctx):
     ctx.floor(rule, n, "C05.R11.uses")
 
 
+def r12(ctx):
+    rule = "C05.R12"
+    ctx.rule(rule, "one boundary for `the presence bits are used up`: every comparison of a presence range's start with its end in "
+                   "Scope::read_from_field and Scope::write_into_field splits at start < end (a bit is read / written only while the "
+                   "position lies inside the transmitted bitmap) - `start <= end` consults the bit behind the bitmap, which belongs to "
+                   "the first addition's open type, when the sender knew fewer additions than the reader")
+    P = ctx.program()
+    n = 0
+    for fn in ("rw::uper::Scope::read_from_field", "rw::uper::Scope::write_into_field"):
+        try:
+            b = P.one("asn1rs", fn)
+        except KeyError as e:
+            ctx.fail(rule, "anchor-lost:" + fn, str(e))
+            continue
+        O = X.Origins(b, P)
+        for c in F.comparisons(b, O):
+            if c.kind != "b" or not c.lhs or not c.rhs:
+                continue
+            ends = sorted((c.lhs.rsplit(".", 1)[-1], c.rhs.rsplit(".", 1)[-1]))
+            if ends != ["end", "start"] or c.lhs.rsplit(".", 1)[0] != c.rhs.rsplit(".", 1)[0]:
+                continue
+            n += 1
+            # normal form `end - start` (lhs is the alphabetically smaller rendering): reading allowed while end - start >= 1
+            bnd = c.boundary if c.lhs.endswith(".end") else (-c.boundary + 1)
+            d = {"function": b.path, "comparison": c.raw[:120], "at": c.loc, "boundary_on_end_minus_start": bnd}
+            key = "%s#%s" % (fn.split("::")[-1], "start-end")
+            if bnd != 1:
+                ctx.fail(rule, key, "`%s` at %s does not split at start < end (it splits at end - start >= %d): the bit behind the presence "
+                                    "bitmap is consulted, or its last bit is not" % (c.raw[-50:], c.loc, bnd), c.loc, d)
+            else:
+                ctx.ok(rule, key, d)
+    ctx.floor(rule, n, "C05.R12.comparisons")
+
+
 def run(ctx):
     r1_r2(ctx)
     r3(ctx)
@@ -477,5 +511,6 @@ def run(ctx):
     r8(ctx)
     r10(ctx)
     r11(ctx)
+    r12(ctx)
     from .c16 import r7 as choice_tag_from_root_alternatives
     choice_tag_from_root_alternatives(ctx, rule="C05.R7")
